@@ -36,6 +36,11 @@ type c17P struct {
 	WriterDelayUs int       `json:"writer_delay_us"` // writers start this late (virtual)
 	Sched         uint64    `json:"sched"`           // PRNG seed of the yield-point delays (0 = none)
 	PaceUs        int       `json:"pace_us"`         // max virtual pause between steps of a client
+	// Zombie: when the deleter is about to remove the datastore keys of height DelTo-1, a reader looks that header up
+	// by hash and by height (cold caches); its datastore answers travel back slowly (ZombieLagUs) so that they arrive
+	// after the deletion finished
+	Zombie      bool `json:"zombie,omitempty"`
+	ZombieLagUs int  `json:"zombie_lag_us,omitempty"`
 }
 
 type hop struct {
@@ -125,6 +130,15 @@ func TestC17(t *testing.T) {
 		p.Writers = [][][]int{bs}
 		mon.Emit(r, "concurrent", p, "concurrent")
 	}
+	// targeted: a reader of the last height being deleted, released exactly when the deleter reaches that height,
+	// then appends at the head (which make the flush loop reconsider the tail)
+	for i := 0; i < r.N(48, 600); i++ {
+		base := 6 + rng.Intn(5)
+		p := c17P{Cfg: Cfg{SC: []int{2, 64, 8, 64}[i%4], IC: []int{2, 64, 64, 8}[i%4], WB: []int{1, 4, 64}[(i/4)%3], Flavour: []string{"plain", "ctx"}[(i/12)%2]}, Base: base, N: base + 3,
+			Readers: 2, Iter: 6, PaceUs: 300, DelTo: base - 1 - (i/24)%2, WriterDelayUs: 20000, Zombie: true, ZombieLagUs: []int{0, 500, 5000, 15000}[(i/2)%4]}
+		p.Writers = [][][]int{{{base + 1}, {base + 2, base + 3}}}
+		mon.Emit(r, "concurrent", p, "concurrent")
+	}
 	r.Finish()
 }
 
@@ -188,9 +202,28 @@ func c17Run(c *mon.Case, p c17P) {
 		defer ctl.Install()()
 		ptrWrite := make(chan struct{})
 		var ptrOnce sync.Once
-		if p.DsYield != 0 || p.SlowPtrUs > 0 {
+		zTrig := make(chan struct{})
+		var zOnce sync.Once
+		zHashKey, zHeightKey := "", ""
+		if p.Zombie && p.DelTo > 1 {
+			zHashKey = "/headers/" + e.chain.At(uint64(p.DelTo-1)).Hash().String()
+			zHeightKey = fmt.Sprintf("/headers/%d", p.DelTo-1)
+		}
+		var deleting atomic.Bool
+		if p.DsYield != 0 || p.SlowPtrUs > 0 || p.Zombie {
 			var n atomic.Uint64
 			e.d.Yield = func(op, key string) {
+				if p.Zombie {
+					switch {
+					case (op == "delete" && key == zHashKey) || (op == "commit" && strings.Contains(key, "-"+zHashKey+" ")):
+						// the deleter is about to remove the header's keys: release the reader and give it a head start
+						zOnce.Do(func() { close(zTrig) })
+						time.Sleep(200 * time.Microsecond)
+					case (op == "get-return" || op == "txnget-return") && (key == zHashKey || key == zHeightKey) && deleting.Load():
+						// the reader's answers travel back slowly
+						time.Sleep(time.Duration(p.ZombieLagUs) * time.Microsecond)
+					}
+				}
 				if op == "put" && strings.HasSuffix(key, "/head") {
 					ptrOnce.Do(func() { close(ptrWrite) })
 				}
@@ -330,6 +363,28 @@ func c17Run(c *mon.Case, p c17P) {
 				}
 			}()
 		}
+		if p.Zombie && zHashKey != "" {
+			zh := uint64(p.DelTo - 1)
+			for k := 0; k < 2; k++ {
+				wg.Add(1)
+				go func() {
+					defer wg.Done()
+					select {
+					case <-zTrig:
+					case <-time.After(time.Minute):
+						return
+					}
+					c.Count("zombie_reads", 1)
+					rctx, rc := vctx(50 * time.Millisecond)
+					defer rc()
+					if k == 0 {
+						_, _ = e.st.Get(rctx, e.chain.At(zh).Hash())
+					} else {
+						_, _ = e.st.GetByHeight(rctx, zh)
+					}
+				}()
+			}
+		}
 		// deleter (tail side, only base heights)
 		var delErr error
 		delDone := false
@@ -350,7 +405,9 @@ func c17Run(c *mon.Case, p c17P) {
 					delTo = h.Height()
 				}
 				ctx, cancel := vctx(time.Hour)
+				deleting.Store(true)
 				delErr = e.st.DeleteRange(ctx, 1, delTo)
+				deleting.Store(false)
 				cancel()
 				delDone = true
 				ptrOnce.Do(func() { close(ptrWrite) })
@@ -399,6 +456,25 @@ func c17Run(c *mon.Case, p c17P) {
 		// (4) final state equals the sequential result of the same appends
 		e.anchored = true
 		e.checkChain("final/"+tag, true)
+		// ... and it is what is really stored, not something served from a cache: a fresh Store object on the same
+		// datastore (after a clean Stop) must show the same chain
+		if !c.Violated() {
+			hd0, tl0, herr0, terr0 := e.headTail()
+			if err := e.stop(); err != nil {
+				c.Violation("stop-fails", fmt.Sprint(err), nil)
+			} else if err := e.open(); err != nil {
+				c.Violation("reopen-fails", fmt.Sprint(err), nil)
+			} else if err := e.start(); err != nil {
+				c.Violation("final/restart-fails/"+tag, fmt.Sprintf("Start of a fresh Store on the same datastore: %v", err), nil)
+			} else {
+				c.Count("final_restarts", 1)
+				hd1, tl1, herr1, terr1 := e.headTail()
+				if herr0 == nil && terr0 == nil && (herr1 != nil || terr1 != nil || hd1.Height() != hd0.Height() || tl1.Height() != tl0.Height()) {
+					c.Violation("final/restart-changes-head-or-tail/"+tag, fmt.Sprintf("before Stop: Tail %v Head %v; fresh Store: Tail %v (%v) Head %v (%v)", tl0, hd0, tl1, terr1, hd1, herr1), nil)
+				}
+				e.checkChain("final-after-restart/"+tag, true)
+			}
+		}
 		head, _, herr, _ := e.headTail()
 		if herr == nil && int(head.Height()) != p.N {
 			c.Violation("final/head-below-tip/"+tag, fmt.Sprintf("all of 1..%d appended and synced but Head is %d", p.N, head.Height()), nil)
@@ -438,6 +514,9 @@ func c17Run(c *mon.Case, p c17P) {
 		}
 		if p.AtHead {
 			tag += "-at-head"
+		}
+		if p.Zombie {
+			tag += fmt.Sprintf("-zombie-reader-lag%d", p.ZombieLagUs)
 		}
 		c.Class("writers=%d readers=%d %s wb=%d %s overlap=%v pace=%d sched=%v dsyield=%v slowptr=%d", len(p.Writers), p.Readers, tag, p.Cfg.WB, p.Cfg.Flavour, overl > 0, p.PaceUs, p.Sched != 0, p.DsYield != 0, p.SlowPtrUs)
 		_ = strings.Join
